@@ -100,7 +100,7 @@ def correspond(ctx, scale):
             K = rng.choice([1, 2])
         iters = rng.choice([1, 2, 5, 10, 20])
         kw = dict(dim=d * heads, codebook_dim=d, heads=heads, separate_codebook_per_head=sep, codebook_size=K, kmeans_init=True, kmeans_iters=iters,
-                  use_cosine_sim=cosine, decay=0.5, threshold_ema_dead_code=0)
+                  use_cosine_sim=cosine, decay=0.5, threshold_ema_dead_code=(2 if ci % 4 == 1 else 0))     # with expiry configured the initialising PURE call must still only initialise
         vq = VectorQuantize(**kw)
         cb = vq._codebook
         seeds_log = []
